@@ -409,8 +409,8 @@ def basis_desc(basis):
 
 # ------------------------------------------------------------------------------------------------ run_case
 def witness_open_finding(ctx):
-    """Deterministic witness of the open finding recorded in known_findings.json (so that every run states whether it is
-    still present): a fixed walk of four adjacent swaps after which swap_site meets a cancelled bond operator."""
+    """Deterministic witness of the (repaired) finding recorded in known_findings.json, so that every run states whether
+    it has returned: a fixed walk of adjacent swaps in which swap_site meets a cancelled bond operator."""
     from renormalizer.model import Model, Op
     from renormalizer.model.basis import BasisHalfSpin
     from renormalizer.mps import Mpo
@@ -420,7 +420,7 @@ def witness_open_finding(ctx):
     cur = list(b)
     ctx.cls("witness:swap-walk-with-cancelled-bond-operator")
     from rv import dense
-    for i in [1, 3, 2, 1]:
+    for i in [1, 3, 2, 1, 2, 3, 1, 0, 2, 1]:      # the fourth swap met the cancelled operator; the later ones re-use its label
         cur[i], cur[i + 1] = cur[i + 1], cur[i]
         guarded(ctx, mpo.try_swap_site, Model(list(cur), terms), False, what="try_swap_site|witness")
         ctx.count("oracle")
